@@ -2,7 +2,7 @@
    Only statements, each closed by `exact`, with Print Assumptions beneath. *)
 From Coq Require Import String.
 From Coq Require Import List Permutation Sorted.
-From Verif Require Import Base Prefix.Str Prefix.Dispatch Prefix.Names Prefix.TableFacts.
+From Verif Require Import Base Prefix.Str Prefix.Dispatch Prefix.Names Prefix.TableFacts Prefix.Gen Prefix.GenOrder.
 Import ListNotations.
 
 (* a call is handled by the plugin with the longest matching prefix, whatever the registration order *)
@@ -70,6 +70,69 @@ Theorem C12_new_name_has_prefix : forall fuel prefix name taken r,
   new_name fuel prefix name taken = Some r -> is_prefix prefix r = true /\ taken r = false.
 Proof. intros fuel prefix name taken r H. exact (conj (new_name_has_prefix _ _ _ _ _ H) (new_name_fresh _ _ _ _ _ H)). Qed.
 Print Assumptions C12_new_name_has_prefix.
+
+(* Generation (typesMap + the generate loop, abstract in the plugins' templates and helper requests):
+   for ANY two prefix maps whose reserved names agree suffix by suffix, with the same plugin order, the
+   emission sequence (plugin, class, name, helper names) under the second map is the first one renamed
+   plugin by plugin.  Partial with respect to the property for per-plugin overrides: an override may
+   change the plugin order (C12_plugin_prefix_order_refuted), and that the SET of emitted
+   (plugin, class) does not depend on the order is not proved here (closure of the requests; sampled by
+   the battery, which compares the sets and bodies). *)
+Theorem C12_plugin_prefix_equivariant_partial :
+  forall (T : Type) (T_eqb : T -> T -> bool) (tyname : T -> str) (requests : nat -> T -> list (nat * T)) (nfuel : nat)
+         (pfx pfx' : nat -> str) (res res' : str -> bool),
+  (forall k x, res' (pfx' k ++ x) = res (pfx k ++ x)) ->
+  forall fuel ord calls,
+  (forall k n t, In (k, n, t) calls -> is_prefix (pfx k) n = true) ->
+  run T T_eqb tyname requests nfuel pfx' res' fuel ord (map (rn_call T pfx pfx') calls)
+  = option_map (map (rn_e T pfx pfx')) (run T T_eqb tyname requests nfuel pfx res fuel ord calls).
+Proof. exact run_equivariant. Qed.
+Print Assumptions C12_plugin_prefix_equivariant_partial.
+
+(* Global -prefix: the order is the same, so the whole output is the default output renamed; and on
+   every generated name the renaming is the single substitution h… |-> p… *)
+Theorem C12_global_prefix_textual :
+  forall (T : Type) (T_eqb : T -> T -> bool) (tyname : T -> str) (requests : nat -> T -> list (nat * T)) (nfuel : nat)
+         (h p : str) (ps : list plugin),
+  forallb (has_head h) ps = true ->
+  forall (res res' : str -> bool),
+  (forall k x, res' (pfx_of (map (rehead h p) ps) k ++ x) = res (pfx_of ps k ++ x)) ->
+  forall fuel calls,
+  (forall k n t, In (k, n, t) calls -> is_prefix (pfx_of ps k) n = true) ->
+  run T T_eqb tyname requests nfuel (pfx_of (map (rehead h p) ps)) res' fuel (order (map (rehead h p) ps))
+      (map (rn_call T (pfx_of ps) (pfx_of (map (rehead h p) ps))) calls)
+  = option_map (map (rn_e T (pfx_of ps) (pfx_of (map (rehead h p) ps))))
+               (run T T_eqb tyname requests nfuel (pfx_of ps) res fuel (order ps) calls).
+Proof. exact global_prefix_textual. Qed.
+Print Assumptions C12_global_prefix_textual.
+
+Theorem C12_global_renaming_is_uniform : forall (h p : str) (ps : list plugin),
+  forallb (has_head h) ps = true ->
+  forall k x, k < length ps ->
+  rn (pfx_of ps) (pfx_of (map (rehead h p) ps)) k (pfx_of ps k ++ x) = p ++ skipn (length h) (pfx_of ps k ++ x).
+Proof. exact rn_is_global. Qed.
+Print Assumptions C12_global_renaming_is_uniform.
+
+(* a minted helper name belongs to its plugin under longest-match dispatch unless a prefix is another
+   prefix followed by "_..." — and in that case the pinned tree does produce a clash *)
+Theorem C12_minted_dispatch_home : forall ps ps' a name i,
+  distinct_prefixes ps -> Permutation ps' ps -> no_underscore_nesting ps -> In a ps ->
+  dispatch (sort_plugins ps') (cand (pprefix a) name i) = Some a.
+Proof. exact minted_dispatch_home. Qed.
+Print Assumptions C12_minted_dispatch_home.
+
+Theorem C12_minted_name_collision_refuted :
+  new_name 10 (s "eq"%string) [] (fun c => existsb (str_eqb c) [s "eq"%string]) = Some (s "eq_"%string).
+Proof. exact minted_name_collision_refuted. Qed.
+Print Assumptions C12_minted_name_collision_refuted.
+
+Theorem C12_new_name_default_prefix_refuted :
+  let dflt := s "deriveEqual"%string in
+  let taken := fun _ : str => false in
+  new_name 5 dflt [] taken <> option_map (fun r => s "eq"%string ++ skipn (length dflt) r) (new_name 5 dflt [] taken)
+  /\ new_name 5 (s "eq"%string) [] taken = Some (s "eq"%string).
+Proof. exact new_name_default_prefix_refuted. Qed.
+Print Assumptions C12_new_name_default_prefix_refuted.
 
 (* boundaries, each with a computed witness *)
 Theorem C12_dispatch_unsorted_refuted :
